@@ -280,7 +280,8 @@ def rule_forwarding_and_keying(rep, build, tier):
     rep.rule("C17.D2", "wrapper methods call the C functions of their own algorithm with same-role arguments")
     rep.rule("C17.D3", "keying paths define the whole key/nonce; zero-length set_key never uses the caller's pointer")
     build = repo.configure(repo.Config("c64"))     # everything (incl. masked words) is C code here
-    lr = repo.lower(build, group="lib", level="O0",
+    # inlined view with loop facts: a constructor is judged together with the file-local helpers it delegates to
+    lr = repo.lower(build, group="lib", level="O0", scev=True, inline_internal=True,
                     tolerate=tuple(u.rel for u in build.group("lib", ("c++",))))
     for u, err in lr.failed:
         rep.notes.append("unit %s not lowered by clang (%s)" % (u, err.strip().splitlines()[-1][:120] if err.strip() else ""))
